@@ -259,6 +259,8 @@ def finish(ctx, *, level, evaluations, distinct_nontrivial, rule, samples, exhau
     if extra:
         cov.update(extra)
     cov.update(ctx.coverage_extra)
+    if ctx.notes:
+        cov["notes"] = [str(n)[:600] for n in ctx.notes[:20]]
     ev = {"property_id": ctx.prop, "tier": ctx.tier, "seed": int(ctx.seed), "level": level,
           "coverage": cov, "assumptions": list(assumptions),
           "wall_s": round(time.time() - ctx.t0, 2), "violations": len(new)}
